@@ -59,18 +59,18 @@ func Run(c *core.Ctx) {
 
 type envelope struct {
 	s         *c03.Sender
+	x         *c03.XGraph  // sendFunc with the helpers of the package inlined
 	nb        types.Object // the needBatch variable (nil: unconditional envelope)
-	nbFalse   func(b *cfg.Block, succ int) bool
-	multi     cfgq.Point
-	exec      cfgq.Point
-	offHset   cfgq.Point
-	offCall   *c03.SendSite
-	last      types.Object // the local holding the last command of the batch
+	nbFalse   func(c *c03.XCtx, b *cfg.Block, succ int) bool
+	multi     c03.XPoint
+	exec      c03.XPoint
+	offHset   c03.XPoint
+	rangePt   c03.XPoint
+	offCall   *c03.SendSite // arguments in sendFunc's vocabulary
 	hsets     []*c03.SendSite
-	isMulti   func(ast.Node) bool
-	isExec    func(ast.Node) bool
-	isOffHset func(ast.Node) bool
-	isSend    func(ast.Node) bool
+	isMulti   func(c03.XNode) bool
+	isExec    func(c03.XNode) bool
+	isOffHset func(c03.XNode) bool
 }
 
 // mentionsConst: e (after chasing locals) mentions the package-level constant pkgPath.name.
@@ -95,11 +95,11 @@ func mentionsConst(c *core.Ctx, info *types.Info, scope ast.Node, e ast.Expr, na
 func r1(c *core.Ctx, s *c03.Sender) *envelope {
 	const rule = "R1.envelope"
 	info := s.Info
-	g := s.LG
 	scope := s.Fn.Decl.Body
-	e := &envelope{s: s}
-	cmdPts := func(name string) []cfgq.Point {
-		return g.Points(func(n ast.Node) bool { return c03.ConnCmd(info, n, name) != nil })
+	x := c03.NewXGraph(c.Program, s.LG, info, s.Fn.Decl, s.Fn.Pkg.PkgPath)
+	e := &envelope{s: s, x: x, rangePt: c03.XPoint{C: x.Root, P: s.RangePt}}
+	cmdPts := func(name string) []c03.XPoint {
+		return x.Points(func(n c03.XNode) bool { return x.XCmd(n, name) != nil })
 	}
 	ms, es, hs := cmdPts("multi"), cmdPts("exec"), cmdPts("hset")
 	if len(ms) != 1 || len(es) != 1 || len(hs) == 0 {
@@ -118,7 +118,7 @@ func r1(c *core.Ctx, s *c03.Sender) *envelope {
 			})
 		}
 		if elsewhere {
-			c.Undecidedf(rule, "shape", s.Lit.Pos(), "MULTI/EXEC are sent outside sendFunc; the rule only follows the closure")
+			c.Undecidedf(rule, "shape", s.Lit.Pos(), "MULTI/EXEC are sent outside sendFunc and the helpers it calls; the rule cannot follow them")
 		} else if len(ms) == 0 || len(es) == 0 || len(hs) == 0 {
 			c.Failf(rule, "shape", s.Lit.Pos(), "sendFunc sends %d MULTI, %d EXEC and %d checkpoint HSETs: without the MULTI ... HSET offset ... EXEC envelope a cut connection leaves data applied without (or a checkpoint without) its counterpart", len(ms), len(es), len(hs))
 		} else {
@@ -127,20 +127,11 @@ func r1(c *core.Ctx, s *c03.Sender) *envelope {
 		return nil
 	}
 	e.multi, e.exec = ms[0], es[0]
-	e.isMulti = func(n ast.Node) bool { return n == e.multi.Node() }
-	e.isExec = func(n ast.Node) bool { return n == e.exec.Node() }
-	e.isSend = func(n ast.Node) bool {
-		for _, call := range cfgq.ExecCalls(n) {
-			if c03.SendOf(info, call) != nil {
-				return true
-			}
-		}
-		return false
-	}
+	e.isMulti, e.isExec = e.multi.Is(), e.exec.Is()
 	// classify the HSETs by the checkpoint constant their field name is built from
-	var offs []cfgq.Point
+	var offs []c03.XPoint
 	for _, hp := range hs {
-		call := c03.ConnCmd(info, hp.Node(), "hset")
+		call := x.XCmd(hp.Node(), "hset")
 		e.hsets = append(e.hsets, call)
 		if len(call.Args) == 4 && mentionsConst(c, info, scope, call.Args[2], "CheckpointOffset") {
 			offs = append(offs, hp)
@@ -152,9 +143,10 @@ func r1(c *core.Ctx, s *c03.Sender) *envelope {
 		return nil
 	}
 	e.offHset = offs[0]
-	e.isOffHset = func(n ast.Node) bool { return n == e.offHset.Node() }
+	e.isOffHset = e.offHset.Is()
 
-	// the batching flag: a bool local whose true edge is the only way to MULTI
+	// the batching flag: a bool local of sendFunc whose true edge is the only way to MULTI
+	g := s.LG
 	cands := map[types.Object]bool{}
 	for _, b := range g.CFG.Blocks {
 		for si := range b.Succs {
@@ -168,18 +160,22 @@ func r1(c *core.Ctx, s *c03.Sender) *envelope {
 	factIs := func(o types.Object, want bool) func(cfgq.Fact) bool {
 		return func(ft cfgq.Fact) bool { x, val := c03.BoolFact(info, ft); return x == o && val == want }
 	}
+	rootEdge := func(m func(cfgq.Fact) bool) func(*c03.XCtx, *cfg.Block, int) bool {
+		f := s.LFl.Edge(m)
+		return func(cx *c03.XCtx, b *cfg.Block, i int) bool { return cx == x.Root && f(b, i) }
+	}
 	for o := range cands {
-		if g.Path(cfgq.Query{From: g.Entry(), AvoidEdge: s.LFl.Edge(factIs(o, true)), Target: e.isMulti}) == nil {
+		if x.Path(c03.XQuery{AvoidEdge: rootEdge(factIs(o, true)), Target: e.isMulti}) == nil {
 			e.nb = o
 		}
 	}
-	e.nbFalse = func(b *cfg.Block, i int) bool { return false }
+	e.nbFalse = func(*c03.XCtx, *cfg.Block, int) bool { return false }
 	if e.nb != nil {
-		e.nbFalse = s.LFl.Edge(factIs(e.nb, false))
+		e.nbFalse = rootEdge(factIs(e.nb, false))
 		// the flag is not rewritten once the envelope has begun
-		isSet := func(n ast.Node) bool {
-			as, ok := n.(*ast.AssignStmt)
-			if !ok {
+		isSet := func(n c03.XNode) bool {
+			as, ok := n.N.(*ast.AssignStmt)
+			if !ok || n.C != x.Root {
 				return false
 			}
 			for _, l := range as.Lhs {
@@ -189,9 +185,9 @@ func r1(c *core.Ctx, s *c03.Sender) *envelope {
 			}
 			return false
 		}
-		w := g.Path(cfgq.Query{From: e.multi, After: true, Target: isSet})
+		w := x.Path(c03.XQuery{From: e.multi, After: true, Target: isSet})
 		if w == nil {
-			w = g.Path(cfgq.Query{From: s.RangePt, After: true, Target: isSet})
+			w = x.Path(c03.XQuery{From: e.rangePt, After: true, Target: isSet})
 		}
 		if w != nil {
 			c.Undecidedf(rule, "flag-stable", s.Lit.Pos(), "the batching flag is reassigned after the envelope began; edge facts are not reliable")
@@ -199,50 +195,50 @@ func r1(c *core.Ctx, s *c03.Sender) *envelope {
 		}
 		exemption(c, s, e)
 	}
-	q := func(query cfgq.Query) []string {
+	q := func(query c03.XQuery) []string {
 		query.AvoidEdge = e.nbFalse
-		return g.Path(query)
+		return x.Path(query)
 	}
-	notMulti := func(n ast.Node) bool { return e.isSend(n) && !e.isMulti(n) }
-	w := q(cfgq.Query{From: g.Entry(), Avoid: e.isMulti, Target: notMulti})
-	c.Check(rule, "multi-first", e.multi.Node().Pos(), w == nil,
+	pos := func(p c03.XPoint) token.Pos { return p.P.Node().Pos() }
+	notMulti := func(n c03.XNode) bool { return c03.XIsSend(n) && !e.isMulti(n) }
+	w := q(c03.XQuery{Avoid: e.isMulti, Target: notMulti})
+	c.Check(rule, "multi-first", pos(e.multi), w == nil,
 		"on the batched paths MULTI must be sent before every other command of the batch: whatever is sent earlier is applied outside the transaction, so a cut before EXEC leaves it applied without its checkpoint and the restart applies it again", w...)
-	w = q(cfgq.Query{From: s.RangePt, After: true, Avoid: e.isOffHset, TargetExit: cfgq.NormalExit})
-	c.Check(rule, "offset-after-data", e.offHset.Node().Pos(), w == nil,
+	w = q(c03.XQuery{From: e.rangePt, After: true, Avoid: e.isOffHset, TargetExit: true})
+	c.Check(rule, "offset-after-data", pos(e.offHset), w == nil,
 		"on the batched paths every path from the data Sends to the end of sendFunc must send HSET <checkpoint> <source>-offset: otherwise the batch commits without advancing the checkpoint and the restart re-applies it", w...)
-	w = q(cfgq.Query{From: s.RangePt, After: true, Avoid: e.isOffHset, Target: e.isExec})
-	c.Check(rule, "exec-after-offset", e.exec.Node().Pos(), w == nil,
+	w = q(c03.XQuery{From: e.rangePt, After: true, Avoid: e.isOffHset, Target: e.isExec})
+	c.Check(rule, "exec-after-offset", pos(e.exec), w == nil,
 		"EXEC must not be reachable from the data Sends without the offset HSET in between: the transaction would commit the data without the checkpoint", w...)
-	w = g.Path(cfgq.Query{From: e.offHset, After: true, Avoid: e.isExec, TargetExit: cfgq.NormalExit})
-	c.Check(rule, "exec-closes", e.exec.Node().Pos(), w == nil,
+	w = x.Path(c03.XQuery{From: e.offHset, After: true, Avoid: e.isExec, TargetExit: true})
+	c.Check(rule, "exec-closes", pos(e.exec), w == nil,
 		"after the offset HSET every path must send EXEC: an open MULTI swallows the following batches into one never-committed transaction", w...)
-	w = g.Path(cfgq.Query{From: e.exec, After: true, Target: e.isSend})
-	c.Check(rule, "nothing-after-exec", e.exec.Node().Pos(), w == nil,
+	w = x.Path(c03.XQuery{From: e.exec, After: true, Target: c03.XIsSend})
+	c.Check(rule, "nothing-after-exec", pos(e.exec), w == nil,
 		"no command may be sent after EXEC in the same batch: it runs outside the transaction, so a cut between EXEC and it separates data and checkpoint (e.g. an offset HSET after EXEC: data committed, offset not: the restart applies the batch twice)", w...)
-	w = g.Path(cfgq.Query{From: e.exec, After: true, Avoid: c03.IsFlush(info), TargetExit: cfgq.NormalExit})
-	c.Check(rule, "flush-after-exec", e.exec.Node().Pos(), w == nil, "the envelope must be flushed after EXEC on every path", w...)
-	fls := g.Points(c03.IsFlush(info))
-	for i, fp := range fls {
-		w := g.Path(cfgq.Query{From: fp, After: true, Target: c03.IsFlush(info)})
-		c.Check(rule, fmt.Sprintf("single-flush#%d", i+1), fp.Node().Pos(), w == nil, "one Flush per batch", w...)
+	w = x.Path(c03.XQuery{From: e.exec, After: true, Avoid: c03.XIsFlush, TargetExit: true})
+	c.Check(rule, "flush-after-exec", pos(e.exec), w == nil, "the envelope must be flushed after EXEC on every path", w...)
+	for i, fp := range x.Points(c03.XIsFlush) {
+		w := x.Path(c03.XQuery{From: fp, After: true, Target: c03.XIsFlush})
+		c.Check(rule, fmt.Sprintf("single-flush#%d", i+1), pos(fp), w == nil, "one Flush per batch", w...)
 	}
 	// one connection
 	same := true
-	core.Inspect(s.Lit, func(n ast.Node) bool {
-		if call, ok := n.(*ast.CallExpr); ok {
+	for _, pt := range x.Points(func(n c03.XNode) bool { return true }) {
+		n := pt.Node()
+		for _, call := range cfgq.ExecCalls(n.N) {
 			for _, m := range []string{"Flush", "Do"} {
-				if x, ok := c03.ConnMethod(info, call, m); ok && !c03.IsObj(info, s.Conn)(x) {
+				if cx, ok := c03.ConnMethod(n.C.Info, call, m); ok && !c03.IsObj(info, s.Conn)(x.Resolve(n.C, cx)) {
 					same = false
 				}
 			}
-			if site := c03.SendOf(info, call); site != nil && !c03.IsObj(info, s.Conn)(site.Conn) {
+			if site := c03.SendOf(n.C.Info, call); site != nil && !c03.IsObj(info, s.Conn)(x.Resolve(n.C, site.Conn)) {
 				same = false
 			}
 		}
-		return true
-	})
+	}
 	c.Check(rule, "one-connection", s.Lit.Pos(), same, "MULTI, the data, the checkpoint HSETs, EXEC and Flush must all use the same connection value: a transaction does not span connections")
-	errorFatal(c, s)
+	errorFatal(c, s, x)
 	hsetArgs(c, s, e)
 	return e
 }
@@ -344,36 +340,28 @@ func lastOfBatch(info *types.Info, s *c03.Sender, e ast.Expr) (ast.Expr, bool) {
 	return o.Expr, true
 }
 
-// errorFatal: every Send/Flush error of the closure ends the goroutine.
-func errorFatal(c *core.Ctx, s *c03.Sender) {
+// errorFatal: every Send/Flush error of the closure (and of the helpers it calls) ends the goroutine.
+func errorFatal(c *core.Ctx, s *c03.Sender, x *c03.XGraph) {
 	const rule = "R1.envelope"
-	info := s.Info
-	g := s.LG
 	k := 0
-	for _, pt := range g.Points(func(n ast.Node) bool {
-		for _, call := range cfgq.ExecCalls(n) {
-			_, b := c03.ConnMethod(info, call, "Flush")
-			if b || c03.SendOf(info, call) != nil {
-				return true
-			}
-		}
-		return false
-	}) {
+	for _, pt := range x.Points(func(n c03.XNode) bool { return c03.XIsSend(n) || c03.XIsFlush(n) }) {
 		k++
 		key := fmt.Sprintf("error-fatal#%d", k)
+		cx, node := pt.C, pt.P.Node()
+		info := cx.Info
 		fatalInside := false
-		for _, call := range cfgq.ExecCalls(pt.Node()) {
+		for _, call := range cfgq.ExecCalls(node) {
 			if site := c03.SendOf(info, call); site != nil && site.Fatal {
 				fatalInside = true
 			}
 		}
 		if fatalInside {
-			c.Okf(rule, key, pt.Node().Pos(), "the forwarding wrapper ends the sender itself when Send fails")
+			c.Okf(rule, key, node.Pos(), "the forwarding wrapper ends the sender itself when Send fails")
 			continue
 		}
-		as, ok := pt.Node().(*ast.AssignStmt)
+		as, ok := node.(*ast.AssignStmt)
 		if !ok || len(as.Lhs) != 1 {
-			c.Failf(rule, key, pt.Node().Pos(), "`%s` discards the error of the connection: after a failed Send/Flush the batch is cleared and lastCommittedOffset advanced although the target never received it (commands lost on the next restart)", c.Src(pt.Node()))
+			c.Failf(rule, key, node.Pos(), "`%s` discards the error of the connection: after a failed Send/Flush the batch is cleared and lastCommittedOffset advanced although the target never received it (commands lost on the next restart)", c.Src(node))
 			continue
 		}
 		ev := core.ObjOf(info, as.Lhs[0])
@@ -395,11 +383,29 @@ func errorFatal(c *core.Ctx, s *c03.Sender) {
 			}
 			return false
 		}
-		w := g.Path(cfgq.Query{From: pt, After: true, AvoidEdge: s.LFl.Edge(isNil), TargetExit: cfgq.NormalExit,
-			Avoid: func(n ast.Node) bool { return n != pt.Node() && (assigns(info, n, ev) || handed(n)) }})
+		edge := cx.Fl.Edge(isNil)
+		w := x.Path(c03.XQuery{From: pt, After: true, TargetExit: true,
+			AvoidEdge: func(c2 *c03.XCtx, b *cfg.Block, i int) bool { return c2 == cx && edge(b, i) },
+			Avoid: func(n c03.XNode) bool {
+				return n.C == cx && n.N != node && (assigns(info, n.N, ev) || handed(n.N)) || returnsErr(n, cx, ev)
+			}})
 		c.Check(rule, key, as.Pos(), w == nil && ev != nil,
 			"a Send/Flush error must end the sender (no-return log call): on this path sendFunc carries on after a failed write, clears the batch and advances lastCommittedOffset, so the commands are lost on restart", w...)
 	}
+}
+
+// returnsErr: the node returns the error variable ev from helper frame cx (its caller judges it; not followed).
+func returnsErr(n c03.XNode, cx *c03.XCtx, ev types.Object) bool {
+	ret, ok := n.N.(*ast.ReturnStmt)
+	if !ok || n.C != cx || cx.Parent == nil {
+		return false
+	}
+	for _, r := range ret.Results {
+		if c03.IsObj(cx.Info, ev)(r) {
+			return true
+		}
+	}
+	return false
 }
 
 func assigns(info *types.Info, n ast.Node, obj types.Object) bool {
@@ -433,7 +439,7 @@ func hsetArgs(c *core.Ctx, s *c03.Sender, e *envelope) {
 			okVal = true // provenance under R2
 		case mentionsConst(c, info, scope, call.Args[2], "CheckpointRunId"):
 			role, want = "runid", "ds.runId"
-			okVal = leafIs(info, scope, call.Args[3], func(x ast.Expr) bool { return core.IsFieldNamed(info, x, c03.Syncer, "runId") })
+			okVal = leafIs(info, scope, call.Args[3], func(x ast.Expr) bool { return c03.FieldIs(info, x, c03.Syncer, "runId") })
 			unknownVal = !okVal && !core.MentionsField(info, call.Args[3], c03.Syncer, "id")
 		case mentionsConst(c, info, scope, call.Args[2], "CheckpointVersion"):
 			role, want = "version", "utils.FcvCheckpoint.CurrentVersion"
@@ -444,7 +450,7 @@ func hsetArgs(c *core.Ctx, s *c03.Sender, e *envelope) {
 			c.Undecidedf(rule, "hset-shape", call.Pos(), "HSET `%s` inside the envelope is not one of the three checkpoint fields", c.Src(call.Call))
 			continue
 		}
-		if leafIs(info, scope, call.Args[1], func(x ast.Expr) bool { return core.IsFieldNamed(info, x, c03.Syncer, "checkpointName") }) {
+		if leafIs(info, scope, call.Args[1], func(x ast.Expr) bool { return c03.FieldIs(info, x, c03.Syncer, "checkpointName") }) {
 			c.Okf(rule, "hset-key/"+role, call.Pos(), "the checkpoint HSET writes the hash ds.checkpointName (the key LoadCheckpoint reads)")
 		} else {
 			c.Undecidedf(rule, "hset-key/"+role, call.Pos(), "the checkpoint HSET writes key `%s`, not ds.checkpointName", c.Src(call.Args[1]))
@@ -579,7 +585,7 @@ func r2(c *core.Ctx, s *c03.Sender, p *c03.Parser, e *envelope) {
 				c.Okf(rule, key, e.offCall.Pos(), "stored offset = batch[len(batch)-1].Offset")
 				// and it is assigned before the offset HSET on the batched paths
 				as := defs[0].Stmt
-				w := s.LG.Path(cfgq.Query{From: s.LG.Entry(), Avoid: func(n ast.Node) bool { return n == as }, AvoidEdge: e.nbFalse, Target: e.isOffHset})
+				w := e.x.Path(c03.XQuery{Avoid: func(n c03.XNode) bool { return n.N == as }, AvoidEdge: e.nbFalse, Target: e.isOffHset})
 				c.Check(rule, "stored-assigned", e.offCall.Pos(), w == nil, "the offset variable must be assigned on every batched path before it is sent: otherwise 0 is stored and the restart replays the whole backlog (or fails)", w...)
 			case src != nil && core.Mentions(info, src, s.Tunnel) && constIndex(info, src):
 				c.Failf(rule, key, src.Pos(), "the checkpoint stores the offset of `%s`, not of the last command of the batch: after a restart the commands between that element and the end of the batch are applied a second time", c.Src(src))
